@@ -221,3 +221,17 @@ def systematic(max_states=4, **kw):
         seen.add(dsl)
         out.append(Prog("sys%d_%03d" % (max_states, len(out)), dsl, **kw))
     return out
+
+
+def spines(**kw):
+    """the spine family: every chain of region kinds of depth 3 (all six kinds, nested region as the last and as the first
+    sub-state) and of depth 4 over composite / resumable / orthogonal - the shapes the <= 4-state trees cannot reach
+    (a destination region two or more levels below an active region of another kind)"""
+    import itertools
+    out = []
+    for ks in itertools.product("CRSUNO", repeat=3):
+        out.append("%s(l,%s(l,%s(l,l)))" % ks)
+        out.append("%s(%s(%s(l,l),l),l)" % ks)
+    for ks in itertools.product("COR", repeat=4):
+        out.append("%s(%s(%s(l,%s(l,l)),l),l)" % ks)
+    return [Prog("spine_%03d" % i, d, **kw) for i, d in enumerate(out)]
